@@ -2,13 +2,25 @@
 
 package p2p
 
+import "sync"
+
 // Verification hooks (build tag `verif` only; add-only, no production code path uses them).
+
+var (
+	verifZeroMu sync.Mutex
+	verifZero   []byte
+)
 
 // VerifSplitLens runs the real split() — with the real maxDataChunkSize, exactly as MultiConn.Send calls
 // it — on a buffer of n zero bytes and returns the length of every chunk. split() only slices its
 // argument, so the buffer is never touched and a near-limit n costs no memory traffic.
 func VerifSplitLens(n int) []int {
-	chunks := split(make([]byte, n), int(maxDataChunkSize))
+	verifZeroMu.Lock()
+	defer verifZeroMu.Unlock()
+	if len(verifZero) < n {
+		verifZero = make([]byte, n+n/8) // one shared buffer, grown rarely, never written or read
+	}
+	chunks := split(verifZero[:n], int(maxDataChunkSize))
 	lens := make([]int, len(chunks))
 	for i, c := range chunks {
 		lens[i] = len(c)
